@@ -39,6 +39,9 @@ def run(ck):
     # its terminal states are replayed into the real code (identical partition, identical number of loop iterations, else DRIFT)
     models.cg_mc(ck, 4 if q else 5, 3 if q else 4, 3, models.SW_ALL, False, ["Optimal", "BBSafe", "BestConsistent"])
     models.cg_replay(ck, 4 if q else 5, 3 if q else 4, 3, models.SW_ALL)
+    models.dp_mc(ck, 4 if q else 5, 3, 3)
+    models.snp_mc_replay(ck, 5 if q else 6, 3 if q else 4)
+    models.rnp_mc_replay(ck, 5 if q else 6, 3)
     models.ckk_mc(ck, 5, 4, 3, ["Optimal"])
     models.ckk_replay(ck, 5, 4, 3 if q else 4)
     groups = []
